@@ -1,5 +1,51 @@
-"""C19 a2ml_specification! typed access (structural clauses; DESIGN.md section 3, C19)"""
-from . import mir, panics, scopes, plumbing
+"""C19 a2ml_specification! typed access (structural clauses; DESIGN.md section 3, C19)
+
+R19-total    no panic obligation in the GenericIfData::get_* accessors (a shape mismatch yields Err)
+R19-sibling  get_single_optitem / get_multiple_optitems hand (data, uid, start_offset, end_offset) to the generated parsers
+R19-plumb    layout fields of the IF_DATA writer are fed from their own sources
+R19-text     for the reference invocations (oracle/a2ml_invocations, together every A2ML construct), the plain-A2ML constant
+             produced by the in-tree generator, read by an independent A2ML reader, has the same structure as the macro input
+R19-typed    for the same invocations the generated typed code (struct fields, parse(), store()) agrees member by member
+             with the macro input and with the library's accessors (see a2mltyped.py)
+"""
+from . import mir, panics, scopes, plumbing, common, a2mlread, a2mltyped
+from .common import Finding
+
+
+def r19_text(chk):
+    facts = common.a2ml_text_facts()
+    n = 0
+    constructs = set()
+    for fn, d in sorted(facts.items()):
+        where = "verif:oracle/a2ml_invocations/" + fn
+        if "error" in d:
+            chk.add(Finding("R19-text", "R19-text::generator-failed::" + fn, "the in-tree generator fails on the reference invocation %s: %s" % (fn, d["error"][-400:]), where))
+            continue
+        for k, s in enumerate(d["specs"]):
+            key = "%s#%d" % (fn, k)
+            try:
+                a = a2mlread.structure_of_tree(s["input"])
+            except a2mlread.A2mlError as e:
+                raise common.EngineFailure("reference invocation %s is not readable: %s" % (key, e))
+            texts = [(nm, v) for nm, v in s["consts"].items() if nm.endswith("_TEXT")]
+            if len(texts) != 1:
+                chk.add(Finding("R19-text", "R19-text::no-constant::" + key, "the expansion of %s has %d *_TEXT constants (expected one A2ML text constant)" % (key, len(texts)), "a2lmacros/src/a2mlspec.rs"))
+                continue
+            nm, text = texts[0]
+            try:
+                b = a2mlread.structure_of_text(text)
+            except a2mlread.A2mlError as e:
+                chk.add(Finding("R19-text", "R19-text::unreadable::" + key, "%s generated for %s is not well-formed A2ML: %s" % (nm, key, e), "a2lmacros/src/a2mlspec.rs"))
+                continue
+            n += a2mlread.count_nodes(a)
+            constructs |= a2mlread.constructs(a)
+            df = a2mlread.diff(a, b)
+            if df:
+                chk.add(Finding("R19-text", "R19-text::differs::" + key + "::" + df.split(":")[0], "%s generated for %s does not describe the structure of the macro input: %s (input vs text)" % (nm, key, df), "a2lmacros/src/a2mlspec.rs"))
+    missing = a2mlread.ALL_CONSTRUCTS - constructs
+    if missing:
+        raise common.EngineFailure("reference invocations do not use the A2ML constructs %s" % sorted(missing))
+    chk.rule("R19-text", "A2ML nodes (types, members, tagged items, enumerators) of the reference invocations compared between macro input and generated text constant", n, floor=90)
 
 
 def run(chk):
@@ -7,4 +53,6 @@ def run(chk):
     panics.run_scope(chk, "R19-total", prog, scopes.ifdata_access_scope(prog), what="panic obligations in the GenericIfData::get_* accessors (structural mismatch must yield Err, not a panic)", floor=4)
     plumbing.r19_sibling(chk)
     plumbing.r05_plumb(chk, rule="R19-plumb", files=("a2lfile/src/a2ml.rs",))
-    chk.assumptions += ["not decided: value round trip through store/load"]
+    r19_text(chk)
+    a2mltyped.run(chk)
+    chk.assumptions += ["not decided: value round trip through store/load for arbitrary values; R19-text / R19-typed decide the generator on the reference invocations only (the 'programs' quantifier of the property is that fixed set)"]
